@@ -117,10 +117,22 @@ var graphOps = []graphOp{
 		_, err := starlark.Call(th, starlark.Universe["repr"], starlark.Tuple{a}, nil)
 		return err
 	}},
-	{"==", func(th *starlark.Thread, a, b starlark.Value) error { _, err := starlark.Compare(syntax.EQL, a, b); return err }},
-	{"==self", func(th *starlark.Thread, a, b starlark.Value) error { _, err := starlark.Compare(syntax.EQL, a, a); return err }},
-	{"==twin", func(th *starlark.Thread, a, b starlark.Value) error { _, err := starlark.Compare(syntax.EQL, a, b); return err }},
-	{"<", func(th *starlark.Thread, a, b starlark.Value) error { _, err := starlark.Compare(syntax.LT, a, b); return err }},
+	{"==", func(th *starlark.Thread, a, b starlark.Value) error {
+		_, err := starlark.Compare(syntax.EQL, a, b)
+		return err
+	}},
+	{"==self", func(th *starlark.Thread, a, b starlark.Value) error {
+		_, err := starlark.Compare(syntax.EQL, a, a)
+		return err
+	}},
+	{"==twin", func(th *starlark.Thread, a, b starlark.Value) error {
+		_, err := starlark.Compare(syntax.EQL, a, b)
+		return err
+	}},
+	{"<", func(th *starlark.Thread, a, b starlark.Value) error {
+		_, err := starlark.Compare(syntax.LT, a, b)
+		return err
+	}},
 	{"hash", func(th *starlark.Thread, a, b starlark.Value) error { _, err := a.Hash(); return err }},
 	{"hash-builtin", func(th *starlark.Thread, a, b starlark.Value) error {
 		_, err := starlark.Call(th, starlark.Universe["hash"], starlark.Tuple{a}, nil)
@@ -134,7 +146,10 @@ var graphOps = []graphOp{
 		_, err := starlark.Call(th, starlark.Universe["sorted"], starlark.Tuple{starlark.NewList([]starlark.Value{a, b, a})}, nil)
 		return err
 	}},
-	{"in", func(th *starlark.Thread, a, b starlark.Value) error { _, err := starlark.Binary(syntax.IN, a, b); return err }},
+	{"in", func(th *starlark.Thread, a, b starlark.Value) error {
+		_, err := starlark.Binary(syntax.IN, a, b)
+		return err
+	}},
 	{"dictkey", func(th *starlark.Thread, a, b starlark.Value) error { return starlark.NewDict(1).SetKey(a, b) }},
 	{"setinsert", func(th *starlark.Thread, a, b starlark.Value) error { return starlark.NewSet(1).Insert(a) }},
 	{"format", func(th *starlark.Thread, a, b starlark.Value) error {
